@@ -27,7 +27,7 @@ def _as_bytes(k):
     return k.encode("latin-1") if isinstance(k, (str, sx.SymStr)) else k
 
 
-def f_short(n, entry):
+def f_short(n, entry, via=None):
     """the same frame written in two pieces (symbolic split point): wire and RETURN VALUE must not depend on it"""
     quiet_logging()
     payload = sx.sym_bytes("p", n)
@@ -36,7 +36,7 @@ def f_short(n, entry):
     F = len(exp)
     first = sx.choice("first", F - 1) + 1
     sock = FakeSock(accept=[first])
-    ws = new_ws(sock, get_mask_key=KeySource([key]))
+    ws = new_ws(sock, via=via, get_mask_key=KeySource([key]))
     from websocket._abnf import ABNF
     try:
         if entry == "send_binary":
@@ -289,8 +289,10 @@ def obligations(tier):
                                     for kk in ("bytes", "str") for dk in ("bytes", "str")],
                    bounds="n in 0..17,125,126,127,200; key and data as bytes and as ASCII str", must_cover=["mask-checked"],
                    kernel=["ABNF.mask", "_mask"]),
-        Obligation("F-short", f_short, [dict(n=n, entry=e) for n in (0, 1, 5, 126) for e in ("send", "send_binary", "send_frame")],
-                   bounds="payload 0,1,5,126 bytes written in two pieces, every split point (symbolic); full short-write coverage is C12",
+        Obligation("F-short", f_short, [dict(n=n, entry=e) for n in (0, 1, 5, 126) for e in ("send", "send_binary", "send_frame")] +
+                   [dict(n=n, entry="send", via=v) for n in (0, 5) for v in ("dispatcher", "ssl-dispatcher")],
+                   bounds="payload 0,1,5,126 bytes written in two pieces, every split point (symbolic), plain and through Dispatcher / SSLDispatcher; "
+                          "full short-write coverage is C12",
                    must_cover=["short-ret"], kernel=["WebSocket.send_frame", "_socket.send"]),
         Obligation("F-threads", f_threads, [dict(t=2, nwrites=w) for w in (1, 2)],
                    bounds="2 sender threads, each frame written in 1..2 pieces, ALL interleavings of the extracted lock/write events (C12's query)",
